@@ -252,6 +252,8 @@ def python_lexicon_only(X, src):
 
 
 def c02(X, src, mode="exec"):
+    if "\x00" in src or "\ufeff" in src:
+        return None   # CPython refuses the character itself; not a question of syntax
     ck, ref = cpy_parse(src, mode)
     if ck != "SyntaxError":
         return None
